@@ -17,17 +17,17 @@ CLAIMED.update({
  "C04": {"cat": "proof", "text": "Every function that writes or reports the verdict is under contract and proved: Fail/FailAll/Stopper._stop_me invalidate exactly when fired, ErrorHandler._handle_if exactly under 'fail' (symbolic policy and overrides), Matcher.matches/_consider_line are monotone, Failed reports the current verdict, ResultsManager.is_valid / ResultsRegistrar.all_valid / register_complete are the conjunction of the members (unbounded loops with invariants); a frame scan over the whole package proves no writer can set the verdict back to True. Bounded complement: conditional fail()/fail_and_stop() at every line with a per-line valid()/failed() observer, errors under 17 policies, and groups of 2-3 members (results_manager.is_valid, manifest all_valid) on the real CsvPath/CsvPaths.",
          "note": "Assumes [A]: match components as interface objects (vote / fires stop / fails), Result.is_valid as the member verdict, manifest bytes on disk (json.dump) not modelled; explain-mode off.",
          "tech": TECH + " + syntactic frame scan"},
- "C05": {"cat": "proof", "text": "The five observable effects of error handling are postconditions on normal AND exceptional exits of the real ErrorHandler._handle_if for a symbolic policy list and symbolic validation-mode overrides (the 2^6 x 3^4 split is done by the solver); do_i_* and ValidationMode.set_* are proved against override-else-policy; attribute safety turns a missing attribute into a failed no_unexpected_exception obligation; Expression.matches traps everything; Matcher.matches hands trapped errors over on every exit. Bounded complement: all 63 policy subsets x 4 error kinds x offending-line positions x 7 validation-mode overrides on the real CsvPath.",
+ "C05": {"cat": "proof", "text": "The five observable effects of error handling are postconditions on normal AND exceptional exits of the real ErrorHandler._handle_if for a symbolic policy list and symbolic validation-mode overrides (the 2^6 x 3^4 split is done by the solver); do_i_* and ValidationMode.set_* are proved against override-else-policy; attribute safety turns a missing attribute into a failed no_unexpected_exception obligation; Expression.matches traps everything; Matcher.matches hands trapped errors over on every exit and Matcher.clear_errors asks every expression whatever the state of the run (loop invariant); ErrorHandler.build records the physical line, line 0 included. Bounded complement: all 63 policy subsets x 5 error kinds (one followed by a stop() on the same line) x offending-line positions incl. line 0 x 7 validation-mode overrides on the real CsvPath.",
          "note": "Assumes [A]: CsvPath.print as abstract printer log, ECM policy snapshot equals the passed policy, collector is a CsvPath (Result collector not yet under contract), logging dropped.",
          "tech": TECH},
- "C13": {"cat": "proof", "text": "Matcher.matches is proved against control clauses taken from the property (no component after a halt, skip means no match and does not outlive the line, stop mid-line means no match, stop as final component keeps the fold), CsvPath.next (generator, ghost yield list) against 'no record after the stopping one', _consider_line against the advance and blank-last clauses, Stop/Skip/Advance/Last._decide_match against fires-iff clauses; all loops by invariants, unbounded. Bounded complement: every position of a stop/skip/advance/last component among 1-3 side-effecting components, every firing line, 3 scan windows, files with interior/trailing blank records, on the real CsvPath.",
+ "C13": {"cat": "proof", "text": "Matcher.matches is proved against control clauses taken from the property (no component after a halt, skip means no match and does not outlive the line, stop mid-line means no match, stop as final component keeps the fold), CsvPath.next (generator, ghost yield list) against 'no record after the stopping one', _consider_line against the advance and blank-last clauses, Stop/Skip/Advance/Last._decide_match against fires-iff clauses; all loops by invariants, unbounded. Bounded complement: every position of a stop/skip/advance/last component among 1-3 side-effecting components, every firing line, 3 scan windows (advance also over two windows with a gap), files with interior/trailing blank records, plus stop/skip programs whose first marker is onmatch-qualified, on the real CsvPath.",
          "note": "Assumes [A]: match components / records as interface objects with ghost fields; generator protocol; scanner well-formedness from C02; explain-mode off.",
          "tech": TECH},
 })
 CLAIMED.update({
- "C15": {"text": "Inversion ('return-mode no-matches returns exactly the scanned lines the default mode does not') is a postcondition of the real _consider_line, the collected/unmatched partition and 'no-run reads nothing' are postconditions of the real CsvPath.next (ghost yield list, loop invariant, unbounded); return/run/unmatched/source mode getters are proved against the documented strings. The comment scanner and print-mode's printer list are character/list state machines checked natively over a stated finite scope.",
-         "note": "Bounded (not proved): MetadataParser over comments of <=2 fields, PrintMode.update_printers over lists <=4, end-to-end mode runs over 4 files. Assumes [A]: ModeController.get reads metadata; records/match verdicts as interface objects.",
-         "tech": TECH + " + bounded native complement for the comment scanner and printer list"},
+ "C15": {"text": "Inversion ('return-mode no-matches returns exactly the scanned lines the default mode does not') is a postcondition of the real _consider_line, the collected/unmatched partition and 'no-run reads nothing' are postconditions of the real CsvPath.next (ghost yield list, loop invariant, unbounded); return/run/unmatched/source mode getters are proved against the documented strings; PrintMode.update_printers is proved to remove exactly the first standard-out printer under no-default and leave every other printer in place (two loops with invariants over a symbolic printer list). The comment scanner is a character state machine checked natively over a stated finite scope.",
+         "note": "Bounded (not proved): MetadataParser over comments of <=2 fields (values with leading punctuation, free text with doubled colons included), end-to-end mode runs over 4 files x 7 match parts. Assumes [A]: ModeController.get reads metadata; records/match verdicts as interface objects; isinstance is a fixed predicate of a printer's identity.",
+         "tech": TECH + " + bounded native complement for the comment scanner"},
 })
 CLAIMED.update({
  "C07": {"text": "collect() and fast_forward() are proved to be drivers of next(): collect returns next()'s lines in order (iota spec function, loop invariant), all of them or the first n, and advances the generator exactly as many times as lines it returns (ghost pull counter, so no side effect of a later line can have run); fast_forward drains next() and writes nothing else (frame); next() itself is under contract (stops, finalizes). A bounded differential run of the three real entry points closes the [A] generator glue.",
@@ -49,7 +49,7 @@ CLAIMED.update({
          "note": "next_by_line (the three breadth-first methods) is BOUNDED only. One known finding (abort on the last line -> completed true).",
          "tech": BT},
  "C20": {"cat": "other", "text": "Proved: Reference._variable_value returns the stored final value whatever it is (0, False, '' included) and raises exactly when the variable is unknown; get_last_named_result returns the last added result; SourceMode.value reads 'preceding'. Bounded: source-mode preceding chains (every suffix) and variable/tracked/results references on the real CsvPaths.",
-         "note": "Proved too: _load_csvpath parses '$' + the predecessor's data.csv + match part in source-mode preceding, the named file otherwise, the referenced data.csv for a results reference. Header references and the tracked-variable variant of _variable_value are BOUNDED only.",
+         "note": "Proved too: _load_csvpath parses '$' + the predecessor's data.csv + match part in source-mode preceding, the named file otherwise, the referenced data.csv for a results reference, and reads a data.csv in the dialect it is written in. Header references, results references by :last/:first/exact name, a semicolon-delimited chain and the tracked-variable variant of _variable_value are BOUNDED only.",
          "tech": BT},
 })
 CLAIMED.update({
